@@ -68,6 +68,11 @@ claimed["C01"] = ("contract-based deductive verification: combinator laws as cal
   "Trusted: dispatcher contract (its result list is logged in ghost state; it writes only document nodes), variableLoop (`as $x`), functype contracts of calculations; strconv/fmt models (Sprintf \"%v\" of an int64 is its decimal text); a list made by list.New() and handed only to list methods or non-leaking callees is not returned by unrelated calls (checked syntactically).",
   "DESIGN.md §5 C01")
 
+claimed["C13"] = ("contract-based deductive verification: one-level postconditions and two-state monotone frame predicates (quantified over all document nodes) on the mutually recursive explode functions, as VCs from go/ssa discharged by z3/cvc5, each recursive call checked against and assumed to meet the same contract; the merge-key precedence of path traversal (ordered map from an external library) by a BOUNDED executed check",
+  "Proved for all inputs (one level per call, the tree by induction over the recursion): explodeNode leaves no anchor on its node; an alias with a target takes the target's kind, value, tag and style and stops being an alias, and for sequence targets receives as many elements, each without anchor or alias (defect found here and fixed: the copied content was not exploded); every element of an exploded sequence has no anchor and is no alias; scalars keep value, tag and style; across every call anchors are only ever removed, non-alias nodes keep kind/value/tag/style, sequences keep their content, nil aliases stay nil; overrideEntry explodes the value on every path that keeps it; a merge of a non-map is an error. BOUNDED (not proved): 4 executed enumerations (all subsets of 2 keys in anchor(s) and explicit entries, explicit keys before/after `<<`, merge lists of two; 3 read routes; 96+96+64+32 reads) compare traversal, explode and JSON output with the YAML merge rules; known findings F7a (explicit key before `<<` loses) and F7b (merge-list order differs between traversal and explode).",
+  "Trusted/assumed: alias targets are not aliases, children are non-nil, maps have an even number of children (decoder invariants, assumed at entry); panic-freedom of the recursive walkers is not claimed (flag nosafety); append copies; the maps' content after reconstructAliasedMap (which keys survive, in which order) is only covered by the bounded checks; traversal (doTraverseMap/traverseMergeAnchor) is not under contract.",
+  "DESIGN.md §5 C13")
+
 not_yet = {}
 
 def hook_commits():
